@@ -84,13 +84,52 @@ var sentinel = append([]byte{6, 16, 0xf0, 0x0d, 0, 20}, []byte("verif-sentinel")
 
 var sentinelText = func() string {
 	var s knxnet.Service
-	if _, err := knxnet.Unpack(sentinel, &s); err != nil {
+	if _, err := oracleUnpack(sentinel, &s); err != nil {
 		panic(err)
 	}
 	return ktext.Join(ktext.Service(s))
 }()
 
 // collect reads the socket's Inbound until the sentinel, the channel's closing or a timeout.
+// oracleUnpack is knxnet.Unpack for the harness's own use (telling which datagrams are well-formed): a
+// decoder that panics or does not return must not take the harness with it.  After the first hang the
+// decoder is not asked again (every further frame counts as not well-formed) and the run reports it.
+var decoderHung, decoderPanicked string
+
+func oracleUnpack(data []byte, svc *knxnet.Service) (uint, error) {
+	if decoderHung != "" {
+		return 0, fmt.Errorf("decoder hung earlier")
+	}
+	type out struct {
+		n   uint
+		err error
+		s   knxnet.Service
+	}
+	ch := make(chan out, 1)
+	cp := append([]byte(nil), data...)
+	go func() {
+		defer func() {
+			if p := recover(); p != nil {
+				if decoderPanicked == "" {
+					decoderPanicked = fmt.Sprintf("%s: %v", ktext.Hex(cp), p)
+				}
+				ch <- out{0, fmt.Errorf("panic: %v", p), nil}
+			}
+		}()
+		var s knxnet.Service
+		n, err := knxnet.Unpack(cp, &s)
+		ch <- out{n, err, s}
+	}()
+	select {
+	case o := <-ch:
+		*svc = o.s
+		return o.n, o.err
+	case <-time.After(2 * time.Second):
+		decoderHung = ktext.Hex(cp)
+		return 0, fmt.Errorf("decoder does not return")
+	}
+}
+
 func collect(in <-chan knxnet.Service, wait time.Duration) (out []string, tail string) {
 	deadline := time.After(wait)
 	for {
@@ -192,7 +231,7 @@ func expectTCP(chunks [][]byte) (out []string, tail string) {
 			break
 		}
 		var svc knxnet.Service
-		if _, err := knxnet.Unpack(stream[:total], &svc); err == nil {
+		if _, err := oracleUnpack(stream[:total], &svc); err == nil {
 			out = append(out, ktext.Join(ktext.Service(svc)))
 		}
 		stream = stream[total:]
@@ -349,6 +388,12 @@ func (r *run) c01live(budget int) {
 		}
 		return f
 	}
+	// beside the streams: a dropped (undecodable) frame, then silence, then a well-formed frame - whatever
+	// the receiver set up for the dropped frame must not stop it later
+	joinShort := r.quietProbe(1500 * time.Millisecond)
+	joinLong := r.quietProbe(4 * time.Second)
+	defer joinLong()
+	defer joinShort()
 	for r.nOps < budget {
 		n := 2 + r.g.R.Intn(6)
 		var stream []byte
@@ -435,7 +480,7 @@ func (r *run) udpOp(dgrams [][]byte) {
 	var want []string
 	for _, d := range dgrams {
 		var svc knxnet.Service
-		if _, err := knxnet.Unpack(append([]byte(nil), d...), &svc); err == nil {
+		if _, err := oracleUnpack(append([]byte(nil), d...), &svc); err == nil {
 			want = append(want, ktext.Join(ktext.Service(svc)))
 		}
 	}
@@ -795,7 +840,7 @@ func (r *run) c16hostinfo() {
 				continue
 			}
 			var svc knxnet.Service
-			if _, err := knxnet.Unpack(got, &svc); err != nil {
+			if _, err := oracleUnpack(got, &svc); err != nil {
 				r.violation("connect-request-malformed", what, ktext.Hex(got))
 				tun.Close()
 				continue
@@ -871,6 +916,12 @@ func main() {
 	default:
 		fmt.Fprintln(os.Stderr, "unknown -prop")
 		os.Exit(2)
+	}
+	if decoderHung != "" {
+		r.violation("decoder-does-not-return", "dec "+decoderHung, "knxnet.Unpack had not returned after 2 s on this frame")
+	}
+	if decoderPanicked != "" {
+		r.violation("decoder-panics", "dec "+decoderPanicked, "knxnet.Unpack panicked on this frame")
 	}
 	r.ops.Flush()
 	r.impl.Flush()
